@@ -195,7 +195,7 @@ func (s *c14skel) stmt(st ast.Stmt, d int) {
 			}
 			s.add(d, "%s %s %s(func)", strings.Join(ls, ", "), x.Tok, callee)
 			s.exprFuncLits(x, d+1)
-		} else if keep || strings.Contains(c14text(p, x), "restoreStacks(") {
+		} else if keep || strings.Contains(c14text(p, x), "restoreStacks(") || strings.Contains(c14text(p, x), "returnIter") {
 			s.add(d, "%s", c14text(p, x))
 		}
 	}
